@@ -100,6 +100,63 @@ def enum_quoting(seed):
     return {"name": "C31.quoting.bounded_enumeration", "bound": f"{len(strings)} strings of <= 4 symbols over {alpha!r} through the real scalar and array-element quoting helpers, evaluated by bash", "cases": cases, "failures": fails}
 
 
+def enum_env_str(seed):
+    """_generate_env_str as a whole (which values go bare, how assignments are grouped into the plain line and the export line): the text it
+    produces for small environments is evaluated by bash and every variable's value and export flag read back"""
+    from pkgcore.ebuild.processor import EbuildProcessor as EP
+    rnd = random.Random(seed + 31)
+    me = object.__new__(EP)
+    me._readonly_vars = frozenset(("BASH_VERSINFO", "UID"))
+    alpha = ["a", "Z", "0", "_", " ", "'", "\n", "é", "١", "$", "-"]
+    values = ["".join(t) for n in range(0, 4) for t in itertools.product(alpha, repeat=n)]
+    values += [w + "\n" for w in ("v1", "A_b", "x" * 9, "0")] + ["\n" + "v1", "v1\n\n", "a\nb"]
+    rnd.shuffle(values)
+    fails, cases = [], 0
+    names = ["A", "M", "N", "Z", "_u", "b9"]
+    for i in range(0, len(values), 4):
+        chunk = values[i:i + 4]
+        if rnd.random() < .15:
+            chunk = chunk[:-1] + [[rnd.choice(values), rnd.choice(values)]]
+        ks = rnd.sample(names, len(chunk))
+        env = dict(zip(ks, chunk))
+        nonexp = frozenset(k for k in ks if rnd.random() < .3)
+        if nonexp:
+            env["PKGCORE_NONEXPORTED_VARS"] = " ".join(sorted(nonexp))
+        env["UID"] = "12"   # read-only in the daemon: must be left out
+        cases += 1
+        try:
+            text = me._generate_env_str(env)
+        except Exception as e:
+            if len(fails) < 5:
+                fails.append({"model": {"env": env}, "detail": f"_generate_env_str({env!r}) raised {type(e).__name__}: {e}"})
+            continue
+        script = "unset " + " ".join(names) + "\n" + text + "\n" + "".join(f'printf "%s\\0" "{n}" "${{{n}@a}}" "${{#{n}[@]}}" "${{{n}[@]}}"\n' for n in ks)
+        r = subprocess.run(["bash", "--norc", "-c", script], capture_output=True)
+        fields = r.stdout.decode("utf-8", "surrogateescape").split("\0")
+        seen, j = {}, 0
+        try:
+            while j < len(fields) - 1:
+                n, attrs, cnt = fields[j], fields[j + 1], int(fields[j + 2])
+                seen[n] = (attrs, fields[j + 3:j + 3 + cnt])
+                j += 3 + cnt
+        except (ValueError, IndexError):
+            seen = {}
+        probs = []
+        if r.returncode != 0 or r.stderr:
+            probs.append(f"bash: exit {r.returncode}, stderr {r.stderr[:120]!r}")
+        for n in ks:
+            want = list(env[n]) if isinstance(env[n], list) else [env[n]]
+            attrs, got = seen.get(n, ("<missing>", None))
+            if got != want:
+                probs.append(f"{n}: given {want!r}, bash has {got!r}")
+            elif ("x" in attrs) != (n not in nonexp):
+                probs.append(f"{n}: export flag wrong ({attrs!r}; non-exported: {sorted(nonexp)})")
+        if probs and len(fails) < 5:
+            fails.append({"model": {"env": env}, "detail": f"_generate_env_str({env!r}) = {text!r}: " + "; ".join(probs[:3])})
+    return {"name": "C31.env_str.bounded_enumeration", "bound": f"{cases} environments of <= 4 variables whose values are all strings of <= 3 symbols over {alpha!r} plus words with newlines before / after, some arrays, "
+            "some variables non-exported, one read-only name; the generated text evaluated by bash, values and export flags read back", "cases": cases, "failures": fails}
+
+
 def enum_daemon(seed):
     import shutil
     import signal
@@ -194,6 +251,7 @@ def tasks():
     return [
         Task("C31.sizes", t_sizes, [(PROC, "EbuildProcessor.send_env"), (PROC, "EbuildProcessor._ensure_metadata_paths"), (PROC, "EbuildProcessor._run_depend_like_phase"), (PROC, "EbuildProcessor._generate_env_str")],
              bounded={"payloads": 3, "note": "ascii, multi-byte, mixed"}, enumerate=enum_quoting),
+        Task("C31.env_str", None, [(PROC, "EbuildProcessor._generate_env_str"), (PROC, "EbuildProcessor._quote_env_value"), (PROC, "EbuildProcessor._quote_array_element")], enumerate=enum_env_str),
         Task("C31.daemon", None, [(PROC, "EbuildProcessor.send_env"), (PROC, "EbuildProcessor._generate_env_str")], enumerate=enum_daemon),
     ]
 
